@@ -228,6 +228,33 @@ def generator_changes(n, rows, rnd, count):
     return outs
 
 
+def weighted_generating_set(n, rows, rnd, heavy=True):
+    """a generating set made of the HEAVIEST (or lightest) group elements: elements sorted by Pauli weight (ties seeded), independent ones picked greedily.  Heavy sets
+    make every pairwise product act on many qubits at once - the inputs on which product-sign / phase bookkeeping differs from the generic case."""
+    els = []
+    for mask in range(1, 1 << n):
+        x = z = 0
+        for i in range(n):
+            if (mask >> i) & 1:
+                x ^= rows[i][0]
+                z ^= rows[i][1]
+        els.append((x, z))
+    rnd.shuffle(els)
+    els.sort(key=lambda p: bin(p[0] | p[1]).count("1"), reverse=heavy)
+    basis, picked = [], []
+    for x, z in els:
+        v = x | (z << n)
+        for b in basis:
+            v = min(v, v ^ b)
+        if v:
+            basis.append(v)
+            picked.append((x, z))
+            if len(picked) == n:
+                break
+    rnd.shuffle(picked)
+    return picked
+
+
 def all_generating_sets(n, key):
     """all ordered bases of the group given by canonical key (n <= 3)"""
     rows = G.rows_from_key(n, key)
